@@ -456,7 +456,8 @@ class World:
         sig0 = f'{e["kind"]}/{"force-" if force else ""}{mk}'
         def fail(clause, what, only_if_exact=False):
             # layout-type clauses are named after the material, the others after the kind of object
-            if clause in ('layout-corrupt', 'phaseless-on-multistream', 'call-has-no-effect', 'int-array-truncated',
+            if clause in ('layout-corrupt', 'phaseless-on-multistream', 'phase-mismatch-accepted', 'call-has-no-effect',
+                          'int-array-truncated',
                           'conversion-changed-material'):
                 mat = sig0.split('/')[1].replace('force-', '')
                 if clause != 'layout-corrupt': mat = mat.replace('-otherpkg', '')
@@ -556,6 +557,12 @@ class World:
             mass_a = float(s.F_mass)
         except Exception as ex:
             fail('layout-corrupt', f'F_mass raises after the reaction: {type(ex).__name__}')
+            return 'out=' + frows(after)
+        if obj._phases and tuple(sorted(ph)) != tuple(obj._phases):
+            # the rows of the stream and of the stoichiometry belong to different phases: must be refused
+            fail('phase-mismatch-accepted', f'a reaction over the phases {tuple(obj._phases)!r} accepted a stream with '
+                 f'the phases {tuple(sorted(ph))!r} and returned normally (flows {before.tolist()!r} -> '
+                 f'{after.tolist()!r}): its stoichiometry rows were combined with other phases\' flows')
             return 'out=' + frows(after)
         if len(ph) > 1 and not obj._phases:
             fail('phaseless-on-multistream', 'a reaction object without phases accepted a multi-phase stream and '
@@ -1554,6 +1561,11 @@ def gen_case(rng):
         if mk == 'stream' and mal == 'stream-phase':
             # phase mismatch in either direction
             srows_phases = rng.choice([p for p in PHASE_SETS + ['l', 'g'] if p != phases])
+            if phases and rng.random() < 0.6:
+                # a strict superset / subset of the reaction's phases (rows would shift or be missing)
+                alts = [p for p in ['gls', 'gl', 'ls', 'gs', 'g', 'l', 's']
+                        if p != phases and (set(p) > set(phases) or set(p) < set(phases))]
+                if alts: srows_phases = rng.choice(alts)
         n_srows = max(1, len(srows_phases)) if mk == 'stream' else nrows
         base = gen_flows(rng, n, nrows, want, small=not exact_bias)
         if mk == 'stream' and mal != 'pkg-missing':
